@@ -424,6 +424,35 @@ def check_timer(ctx, model, case, origin="gen"):
     return False
 
 
+def check_timer_exhaustive(ctx, model, depth=3):
+    import itertools
+
+    args = [None, "a", "all", ["a", "zz", "b"], "zz"]
+    alphabet = [(op, a) for op in ("start", "stop", "reset") for a in args]
+    queries = [None, "a", "b", "zz", "all"]
+    cfg = {"init": "b", "dflt": "main", "all": "all"}
+    n = 0
+    for d in range(1, depth + 1):
+        for seq in itertools.product(alphabet, repeat=d):
+            calls = []
+            t = 0
+            for op, a in seq:
+                t += 2
+                calls.append({"t": t, "op": op, "arg": a})
+                for q in queries:
+                    for tot in (True, False):
+                        calls.append({"t": t + 1, "op": "elapsed", "arg": q, "total": tot})
+            ok = check_timer(ctx, model, {"kind": "timer", "cfg": cfg, "calls": calls}, origin="exhaustive")
+            n += 1
+            if not ok and len(ctx.violations) >= 3:
+                return
+    ctx.count("timer:exhaustive histories", n)
+    ctx.extra["timer_exhaustive_scope"] = {
+        "exhaustive": True, "histories": n, "depth": depth, "alphabet": [[op, a] for op, a in alphabet],
+        "queries_after_every_call": [[q, tot] for q in queries for tot in (True, False)], "cfg": cfg,
+    }
+
+
 # --------------------------------------------------------------------------------------------------
 # constructor keywords, statistics columns, finiteness test
 
@@ -600,6 +629,10 @@ def correspond(ctx, model):
         mo = max_ops if (not ctx.thorough or i % 4 == 0) else 30
         cfg, calls = G.gen_timer_case(ctx.rng, mo)
         check_timer(ctx, model, {"kind": "timer", "cfg": cfg, "calls": calls})
+    # 2b. exhaustive small scope: EVERY history of <= 3 mutating calls over a 15-call alphabet (start/stop/reset x
+    #     None / 'a' / the all label / a list with an unknown label in the middle / an unknown label), clock advancing
+    #     by 2 per call, every label queried (both values of `total`) after every call
+    check_timer_exhaustive(ctx, model)
     # 3. constructor keywords / statistics columns / finiteness test / transpose
     check_kwargs(ctx, model)
     check_finite(ctx, model)
